@@ -37,23 +37,20 @@ def awaitee_name(v):
     return "?"
 
 
-def check_coroutine(ctx, rep, name, label, tbl, depth=0, seen=None):
-    """R19.1 over one coroutine's suspension points; recurses into awaited workspace coroutines"""
-    seen = seen if seen is not None else set()
-    if name in seen or depth > 4:
-        return
-    seen.add(name)
+def short(n):
+    return n.replace("::{closure#0}", "").split("::")[-1]
+
+
+def suspensions(ctx, rep, name, tbl):
+    """suspension records of one coroutine: awaitee, nested workspace coroutines held in the awaitee, what is held by value"""
     raw = ctx.mir.bodies.get(name)
     if raw is None or not raw.get("layout"):
-        rep.fail("R19.1", "%s:layout" % label, "coroutine layout of %s not found" % name)
-        return
+        return None
     rep.fn(name)
+    out = []
     for v in raw["layout"]:
         if not v["saved"]:
             continue
-        aw = awaitee_name(v)
-        key = "%s:await(%s)" % (label, aw)
-        loc = "%s:%s" % (v["at"]["file"], v["at"]["line"])
         held = set()
         nested = []
         for s in v["saved"]:
@@ -61,19 +58,76 @@ def check_coroutine(ctx, rep, name, label, tbl, depth=0, seen=None):
                 if a.startswith("coroutine:insim"):
                     nested.append(a.split("coroutine:")[1])
                 held.add(a)
-        carriers = sorted(a for a in held if a in tbl["data_carriers"] and a != "alloc::string::String")
-        unsafe = sorted(a for a in held if a in tbl["unsafe"])
-        unknown = sorted(a for a in held if ("tokio::io::util::" in a or "tokio::time::" in a) and a not in tbl["safe"] and a not in tbl["unsafe"] and a not in tbl["transparent"]
-                         and a not in tbl.get("inert", ()))
-        rep.check("R19.1", key + ":no-data-parked", not carriers,
-                  "while %s is suspended at `%s.await` it holds %s by value: dropping the read future there (a select! tick) destroys data already removed from the connection buffer" % (label, aw, carriers),
-                  loc, sample={"coroutine": label, "await": aw, "saved": [s["ty"][:90] for s in v["saved"]]})
-        for u in unsafe:
+        out.append({
+            "aw": awaitee_name(v), "loc": "%s:%s" % (v["at"]["file"], v["at"]["line"]), "nested": nested,
+            "carriers": sorted(a for a in held if a in tbl["data_carriers"] and a != "alloc::string::String"),
+            "unsafe": sorted(a for a in held if a in tbl["unsafe"]),
+            "unknown": sorted(a for a in held if ("tokio::io::util::" in a or "tokio::time::" in a) and a not in tbl["safe"] and a not in tbl["unsafe"] and a not in tbl["transparent"]
+                              and a not in tbl.get("inert", ())),
+            "saved": [s["ty"][:90] for s in v["saved"]]})
+    return out
+
+
+def leaves(ctx, rep, name, tbl, depth=0, seen=()):
+    """flatten a workspace coroutine into its dependency-future suspensions; what intermediate private coroutines hold while
+    they wait is added to every leaf below them, so extracting a helper `async fn` does not change the result"""
+    if name in seen or depth > 5:
+        return []
+    sus = suspensions(ctx, rep, name, tbl)
+    if sus is None:
+        return None
+    out = []
+    for v in sus:
+        if v["nested"]:
+            for n in v["nested"]:
+                sub = leaves(ctx, rep, n, tbl, depth + 1, seen + (name,))
+                if sub is None:
+                    return None
+                for lf in sub:
+                    out.append(dict(lf, carriers=sorted(set(lf["carriers"]) | set(v["carriers"])), unsafe=sorted(set(lf["unsafe"]) | set(v["unsafe"])),
+                                    unknown=sorted(set(lf["unknown"]) | set(v["unknown"]))))
+        else:
+            out.append(v)
+    return out
+
+
+def check_coroutine(ctx, rep, name, label, tbl):
+    """R19.1 over the suspension points of the read future; instance keys name the root, the workspace coroutine awaited by
+    the root (first hop) and the dependency future finally awaited - not the chain of private helpers in between"""
+    sus = suspensions(ctx, rep, name, tbl)
+    if sus is None:
+        rep.fail("R19.1", "%s:layout" % label, "coroutine layout of %s not found" % name)
+        return
+    for v in sus:
+        key = "%s:await(%s)" % (label, v["aw"])
+        rep.check("R19.1", key + ":no-data-parked", not v["carriers"],
+                  "while %s is suspended at `%s.await` it holds %s by value: dropping the read future there (a select! tick) destroys data already removed from the connection buffer" % (label, v["aw"], v["carriers"]),
+                  v["loc"], sample={"coroutine": label, "await": v["aw"], "saved": v["saved"]})
+        for u in v["unsafe"]:
             rep.fail("R19.1", key + ":unsafe-future:" + u.split("::")[-1],
-                     "while %s is suspended at `%s.await` it holds %s, which tokio documents as not cancel-safe (a partially written frame stays on the wire)" % (label, aw, u), loc)
-        rep.check("R19.1", key + ":futures-classified", not unknown, "unclassified dependency futures held across `%s.await`: %s" % (aw, unknown), loc, nontrivial=False)
-        for n in nested:
-            check_coroutine(ctx, rep, n, "%s>%s" % (label, n.replace("::{closure#0}", "").split("::")[-1]), tbl, depth + 1, seen)
+                     "while %s is suspended at `%s.await` it holds %s, which tokio documents as not cancel-safe (a partially written frame stays on the wire)" % (label, v["aw"], u), v["loc"])
+        rep.check("R19.1", key + ":futures-classified", not v["unknown"], "unclassified dependency futures held across `%s.await`: %s" % (v["aw"], v["unknown"]), v["loc"], nontrivial=False)
+        for n in v["nested"]:
+            hop = "%s>%s" % (label, short(n))
+            sub = leaves(ctx, rep, n, tbl, 1, (name,))
+            if sub is None:
+                rep.fail("R19.1", "%s:layout" % hop, "coroutine layout of %s not found" % n)
+                continue
+            merged = {}
+            for lf in sub:
+                m = merged.setdefault(lf["aw"], {"carriers": set(), "unsafe": set(), "unknown": set(), "loc": lf["loc"], "saved": lf["saved"]})
+                m["carriers"] |= set(lf["carriers"])
+                m["unsafe"] |= set(lf["unsafe"])
+                m["unknown"] |= set(lf["unknown"])
+            for aw, m in sorted(merged.items()):
+                k2 = "%s:await(%s)" % (hop, aw)
+                rep.check("R19.1", k2 + ":no-data-parked", not m["carriers"],
+                          "while %s is suspended at `%s.await` it holds %s by value: dropping the read future there (a select! tick) destroys data already removed from the connection buffer" % (hop, aw, sorted(m["carriers"])),
+                          m["loc"], sample={"coroutine": hop, "await": aw, "saved": m["saved"]})
+                for u in sorted(m["unsafe"]):
+                    rep.fail("R19.1", k2 + ":unsafe-future:" + u.split("::")[-1],
+                             "while %s is suspended at `%s.await` it holds %s, which tokio documents as not cancel-safe (a partially written frame stays on the wire)" % (hop, aw, u), m["loc"])
+                rep.check("R19.1", k2 + ":futures-classified", not m["unknown"], "unclassified dependency futures held across `%s.await`: %s" % (aw, sorted(m["unknown"])), m["loc"], nontrivial=False)
 
 
 def run(ctx, rep):
